@@ -69,12 +69,14 @@ theorem locOf_modify (vs : List Vtx) (i j loc : Nat) (hi : i < vs.length) :
 def WF (m : Mesh) : Prop :=
   DepotWF m.depot ∧ (∀ b ∈ m.lists.blocks, b.verts.length = 8) ∧ m.lists.blocks.length = m.lists.assembled.length
 
-/-- a history in which every `add` brings a new object with 8 points -/
+/-- a history in which every `add` brings a new object with 8 points (an entity: new, pairwise different objects) -/
 def Legal (m : Mesh) : List Step → Prop
   | [] => True
   | s :: h =>
     (match s with
       | .add o => o.corners.length = 8 ∧ ∀ o' ∈ m.depot, o'.id ≠ o.id
+      | .addEntity ops => (∀ o ∈ ops, o.corners.length = 8 ∧ ∀ o' ∈ m.depot, o'.id ≠ o.id) ∧
+          (∀ o1 ∈ ops, ∀ o2 ∈ ops, o1.id = o2.id → o1 = o2)
       | _ => True) ∧ Legal (step m s) h
 
 theorem bpOne_len8 (vs : List Vtx) (pairs : List (Block × Nat)) (a : Op)
@@ -123,6 +125,8 @@ theorem wf_clear (m : Mesh) (h : WF m) : WF (clear m) :=
 theorem wf_step (m : Mesh) (s : Step) (h : WF m)
     (hs : match s with
       | .add o => o.corners.length = 8 ∧ ∀ o' ∈ m.depot, o'.id ≠ o.id
+      | .addEntity ops => (∀ o ∈ ops, o.corners.length = 8 ∧ ∀ o' ∈ m.depot, o'.id ≠ o.id) ∧
+          (∀ o1 ∈ ops, ∀ o2 ∈ ops, o1.id = o2.id → o1 = o2)
       | _ => True) : WF (step m s) := by
   cases s with
   | add o =>
@@ -157,6 +161,21 @@ theorem wf_step (m : Mesh) (s : Step) (h : WF m)
         · exact h.1.2 o' ho'
         · subst ho'; exact h.1.2 _ hmem
     · exact h
+  | addEntity ops =>
+    obtain ⟨hops, hdist⟩ := hs
+    refine ⟨⟨?_, ?_⟩, h.2⟩
+    · intro o1 h1 o2 h2 hid
+      simp only [step, addEntity, List.mem_append] at h1 h2
+      rcases h1 with h1 | h1 <;> rcases h2 with h2 | h2
+      · exact h.1.1 o1 h1 o2 h2 hid
+      · exact absurd hid ((hops o2 h2).2 o1 h1)
+      · exact absurd hid.symm ((hops o1 h1).2 o2 h2)
+      · exact hdist o1 h1 o2 h2 hid
+    · intro o' ho'
+      simp only [step, addEntity, List.mem_append] at ho'
+      rcases ho' with ho' | ho'
+      · exact h.1.2 o' ho'
+      · exact (hops o' ho').1
   | delete id => exact h
   | assemble => exact wf_assemble m h
   | clear => exact wf_clear m h
